@@ -294,6 +294,16 @@ class CSSStyleSheet(cssutils.stylesheets.StyleSheet):
                 )
                 rule = cssutils.css.MarginRule(parentStyleSheet=self)
                 rule.cssText = self._tokensupto2(tokenizer, token)
+            elif self._normalize(token[1]) == '@charset':
+                # not written exactly as '@charset "encoding";': invalid, and
+                # kept as unknown rule it would read as a charset rule later
+                self._log.error(
+                    'CSSStylesheet: Syntax Error in @charset rule, ignored.',
+                    token,
+                    neverraise=True,
+                )
+                self._tokensupto2(tokenizer, token)
+                return max(1, expected or 0)
             else:
                 self._log.warn(
                     'CSSStylesheet: Unknown @rule found.', token, neverraise=True
